@@ -27,7 +27,7 @@ CONSTANTS GraphRels, FunRels, MaxN,
           GraphMod,    \* graphs on MaxN nodes are sampled: kept iff (code + Seed) % GraphMod = 0
           Decors, DecorMod,
           FunMod,      \* functional graphs on MaxN nodes are sampled the same way
-          OutlineNs, OutlineMod, Outline1Mod,
+          OutlineNs, OutlineMod, Outline1Mod, OutTrees, OutTreeMod,
           DepthRels, SynKinds, Limit, BigDepth, HugeDepth,
           MutTargets, MutOps, MutK,
           PdfBases, PdfK, PdfMod, TruncK,
@@ -83,7 +83,24 @@ OutlineN(n) ==
     first |-> [i \in 1..n |-> Digit(c, n + 2, i - 1)], ilast |-> [i \in 1..n |-> Digit(c, n + 2, i - 1)],
     next |-> [i \in 1..n |-> Digit(c, n + 2, n + i - 1)], prev |-> [i \in 1..n |-> Digit(c, n + 2, 2 * n + i - 1)]] :
      c \in {x \in 0..(Pw(n + 2, 3 * n + 1) - 1) : OutlineMod = 1 \/ (x + Seed) % OutlineMod = 0}}
-OutlineShapes == UNION {IF n = 1 THEN Outline1 ELSE OutlineN(n) : n \in OutlineNs}
+(* Outline trees with broken links: t top level items 1..t, the first of which has the c children t+1..n, all   *)
+(* pointers well formed except the /Next and /Prev of the children, which are free (0 = none or any item: a      *)
+(* sibling, the parent, another top level item - an item shared between two lists).  These are the shapes on     *)
+(* which a reader that repairs duplicate items and broken sibling chains works hardest.  tc = 10 * t + c; one    *)
+(* base n+1 digit per free pointer; sampled by code + Seed.                                                       *)
+OutTree(tc, code) ==
+  LET t == tc \div 10
+      c == tc % 10
+      n == t + c
+  IN [fam |-> "outline", n |-> n, rt |-> FALSE, rfirst |-> 1, last |-> t,
+      parent |-> [i \in 1..n |-> IF i <= t THEN n + 1 ELSE 1],
+      first |-> [i \in 1..n |-> IF i = 1 THEN t + 1 ELSE 0],
+      ilast |-> [i \in 1..n |-> IF i = 1 THEN n ELSE 0],
+      next |-> [i \in 1..n |-> IF i <= t THEN (IF i < t THEN i + 1 ELSE 0) ELSE Digit(code, n + 1, i - t - 1)],
+      prev |-> [i \in 1..n |-> IF i <= t THEN i - 1 ELSE Digit(code, n + 1, c + i - t - 1)]]
+OutTreeShapes ==
+  UNION {{OutTree(tc, code) : code \in {x \in 0..(Pw((tc \div 10) + (tc % 10) + 1, 2 * (tc % 10)) - 1) : (x + Seed) % OutTreeMod = 0}} : tc \in OutTrees}
+OutlineShapes == UNION {IF n = 1 THEN Outline1 ELSE OutlineN(n) : n \in OutlineNs} \cup OutTreeShapes
 
 DepthsOf(k) == {Limit - 1, Limit, Limit + 1, 10 * Limit, BigDepth} \cup (IF k \in SynKinds THEN {HugeDepth} ELSE {})
 DepthShapes == UNION {{[fam |-> "depth", rel |-> k, depth |-> d] : d \in DepthsOf(k)} : k \in DepthRels \cup SynKinds}
@@ -149,11 +166,10 @@ GuardedDepth == level <= Limit + 1
 Progress == status = "run" => ENABLED Next
 
 (* ------------------------------------------------------------------- emission *)
-Reach(s) == LET step(X) == X \cup UNION {Succs(s, v) : v \in X}
-            IN step(step(step(step({1}))))
-Cyclic(s) == GraphLike(s) /\ \E v \in Reach(s) :
-               LET step(X) == X \cup UNION {Succs(s, w) : w \in X}
-               IN v \in step(step(step(step(Succs(s, v)))))
+RECURSIVE Closure(_, _, _)
+Closure(s, X, k) == IF k = 0 THEN X ELSE Closure(s, X \cup UNION {Succs(s, v) : v \in X}, k - 1)
+Reach(s) == Closure(s, {1}, s.n)
+Cyclic(s) == GraphLike(s) /\ \E v \in Reach(s) : v \in Closure(s, Succs(s, v), s.n)
 Case == [shape |-> shape, verdict |-> status, steps |-> steps, revisit |-> revisit, cyclic |-> Cyclic(shape)]
 EmitCase == (Emit /\ Done) => PrintT(<<"SHAPE", ToJson(Case)>>)
 =============================================================================
